@@ -48,10 +48,29 @@ HMCS = [0, 1, 49, 50, 99, 100, 127, 128, 129, 255, 1000, 4094]
 FMNS = [1, 2, 100, 2400, 65535, 1000000]
 
 
-def cases_for(prop, tier, roots, rng):
+def cases_for(prop, tier, roots, rng, wd=None):
     """the case mix per property; every case is {id, fen, ops, prop, family}"""
     T = tier == "thorough"
     cases = []
+    extra = []
+    if prop in ("C01", "C05") and wd:
+        cand = ep_geometry_fens(rng, 3000 if T else 500, False) + ep_geometry_fens(rng, 20000 if T else 3000, True)
+        cls = posfilter(wd, cand)
+        wf = [c for c in cand if cls[c]["wf"]]
+        terminal = [c for c in wf if cls[c]["nlegal"] == 0 and cls[c]["nillegal"] > 0]
+        pinned = [c for c in wf if cls[c]["nlegal"] > 0 and cls[c]["nillegal"] > 0]
+        # second round: positions with an illegal e.p. capture get their king boxed in by further enemy pieces (many attempts, TLC filters)
+        epill = [c for c in wf if cls[c]["epill"] and not cls[c]["check"]]
+        cand2 = []
+        for c in epill[: (400 if T else 80)]:
+            for _ in range(60 if T else 40):
+                cand2.append(box_in(rng, c))
+        cls2 = posfilter(wd, cand2, "pf2") if cand2 else {}
+        term2 = [c for c in dict.fromkeys(cand2) if cls2[c]["wf"] and cls2[c]["nlegal"] == 0 and cls2[c]["epill"]]
+        terminal = term2 + terminal
+        log("%s: e.p. geometry candidates %d, well-formed %d, with illegal e.p. capture %d, move-less with pseudo-legal moves %d (of which with an illegal e.p. capture %d)"
+            % (prop, len(cand), len(wf), len(epill), len(terminal), len(term2)))
+        extra = terminal[: (2000 if T else 250)] + rng.sample(pinned, min(len(pinned), 1500 if T else 200))
 
     def add(fen, ops, why):
         cases.append({"id": len(cases) + 1, "family": "board", "prop": prop, "fen": fen, "ops": ops, "why": why})
@@ -73,6 +92,8 @@ def cases_for(prop, tier, roots, rng):
             add(r["fen"], [{"op": "walk", "plies": 120 if T else 50, "seed": rng.randrange(1 << 30)}], "random legal game")
         for r in pick(tagged("perft", "castle", "ep", "promo"), 20 if T else 5):
             add(r["fen"], [{"op": "perft", "depth": 2}], "perft(2) per root move")
+        for f in extra:
+            add(f, [{"op": "gen"}], "e.p. pair with king/slider geometry (TLC-filtered candidates): all generators")
     elif prop == "C02":
         for r in roots:
             add(r["fen"], [{"op": "dfs", "depth": 1}], "every legal move made once")
@@ -113,6 +134,8 @@ def cases_for(prop, tier, roots, rng):
                 add(r["fen"], [{"op": "walk", "plies": 200 if T else 80, "seed": rng.randrange(1 << 30)}], "random play into mates/stalemates")
         for r in pick(roots, 40 if T else 8):
             add(r["fen"], [{"op": "walk", "plies": 150 if T else 60, "seed": rng.randrange(1 << 30)}], "random legal game")
+        for f in extra:
+            add(f, [{"op": "dfs", "depth": 1}], "move-less positions that still have pseudo-legal moves, and e.p. discovered-check geometry (TLC-filtered candidates)")
     elif prop == "C06":
         for r in roots:
             add(r["fen"], [{"op": "dfs", "depth": 1}], "delta of every emitted move")
@@ -162,6 +185,99 @@ def casegen(wd, fens, tag="cg"):
 
 
 FILES = "abcdefgh"
+
+
+def posfilter(wd, fens, tag="pf"):
+    """TLC classifies candidate positions: {fen: [wf, nlegal, nillegal, check]}"""
+    fens = list(dict.fromkeys(fens))
+    n = min(NCPU, max(1, len(fens) // 200))
+    parts = [fens[i::n] for i in range(n)]
+
+    def one(i):
+        rp = os.path.join(wd, "%s_in_%d.ndjson" % (tag, i))
+        op = os.path.join(wd, "%s_out_%d.json" % (tag, i))
+        with open(rp, "w") as f:
+            for x in parts[i]:
+                f.write(json.dumps({"fen": x}) + "\n")
+        swd = os.path.join(wd, "%s_tlc_%d" % (tag, i))
+        os.makedirs(swd, exist_ok=True)
+        info = run_tlc(os.path.join(SPEC, "PosFilter.tla"), os.path.join(SPEC, "PosFilter.cfg"), swd, env={"ROOTS": rp, "OUT": op}, timeout=1800)
+        if info["rc"] != 0 or not os.path.exists(op):
+            raise ToolError("PosFilter failed:\n" + info["out"][-2000:])
+        return json.load(open(op))
+
+    out = {}
+    for rows in pmap(one, list(range(n))):
+        for r in rows:
+            out[r["fen"]] = r
+    return out
+
+
+def ep_geometry_fens(rng, n, boxed):
+    """candidates around an e.p. pair: own king and an enemy slider anywhere (the discovered-check geometry of e.p. captures on ranks and
+    diagonals arises by placement), optionally with enemy pieces thrown in near the king (boxed in: mates and stalemates whose only
+    pseudo-legal moves are illegal).  TLC (PosFilter) keeps the well-formed ones."""
+    out = []
+    for _ in range(n):
+        white = rng.random() < 0.5
+        f = rng.randrange(8)
+        g = rng.choice([x for x in (f - 1, f + 1) if 0 <= x < 8])
+        r = 4 if white else 3                       # rank index of the two pawns
+        board = {r * 8 + f: "p" if white else "P", r * 8 + g: "P" if white else "p"}
+        if rng.random() < 0.4:
+            h = 2 * f - g
+            if 0 <= h < 8:
+                board[r * 8 + h] = "P" if white else "p"       # a second candidate capturer
+        free = [q for q in range(64) if q not in board and q != (r + (1 if white else -1)) * 8 + f and q != (r + (2 if white else -2)) * 8 + f]
+        ksq = rng.choice([q for q in free if q // 8 == r] if rng.random() < 0.5 else free)
+        board[ksq] = "K" if white else "k"
+        free.remove(ksq)
+        for _ in range(rng.choice([1, 1, 2])):
+            q = rng.choice([x for x in free if x // 8 == r] if rng.random() < 0.5 else free)
+            board[q] = rng.choice("rqb") if white else rng.choice("RQB")
+            free.remove(q)
+        q = rng.choice(free)
+        board[q] = "k" if white else "K"
+        free.remove(q)
+        if boxed:
+            near = [x for x in free if abs(x // 8 - ksq // 8) <= 3 and abs(x % 8 - ksq % 8) <= 3]
+            for _ in range(rng.choice([1, 2, 3, 4])):
+                if near:
+                    x = rng.choice(near)
+                    near.remove(x)
+                    board[x] = rng.choice("qrbnp" if white else "QRBNP")
+        fen = board_to_fen(board, "w" if white else "b").split(" ")
+        fen[3] = "abcdefgh"[f] + ("6" if white else "3")
+        out.append(" ".join(fen))
+    return out
+
+
+def box_in(rng, fen):
+    """add 1-5 enemy pieces near the king of the side to move (candidate only; TLC judges)"""
+    f = fen.split(" ")
+    rows = f[0].split("/")
+    board = {}
+    for ri, row in enumerate(rows):
+        c = 0
+        for ch in row:
+            if ch.isdigit():
+                c += int(ch)
+            else:
+                board[(7 - ri) * 8 + c] = ch
+                c += 1
+    white = f[1] == "w"
+    ksq = [q for q, p in board.items() if p == ("K" if white else "k")][0]
+    epf = "abcdefgh".index(f[3][0])
+    keep = {(int(f[3][1]) - 1) * 8 + epf, (int(f[3][1]) - 1 + (1 if white else -1)) * 8 + epf}
+    near = [x for x in range(64) if x not in board and x not in keep and abs(x // 8 - ksq // 8) <= 3 and abs(x % 8 - ksq % 8) <= 3]
+    for _ in range(rng.choice([1, 2, 3, 4, 5])):
+        if near:
+            x = rng.choice(near)
+            near.remove(x)
+            board[x] = rng.choice("qrbnnp" if white else "QRBNNP")
+    out = board_to_fen(board, f[1]).split(" ")
+    out[3] = f[3]
+    return " ".join(out)
 
 
 def like_piece_fens(rng, n):
@@ -423,7 +539,7 @@ def check_board_prop(prop, tier, replay=None):
         if prop in ("C13", "C14"):
             cases, _ = text_cases(prop, tier, roots, rng, wd)
         else:
-            cases = cases_for(prop, tier, roots, rng)
+            cases = cases_for(prop, tier, roots, rng, wd)
     log("%s: %d cases" % (prop, len(cases)))
     shards, results = run_board_cases(prop, cases, wd, keys)
     outcome = Outcome(prop)
